@@ -286,6 +286,7 @@ func checkC20Methods(w *World, c *Check, kinds []nilKind) {
 						grp := fmt.Sprintf("C20/%s/%s=%s", mname, sig.Params().At(pi).Name(), k.name)
 						guard(c, grp, func() {
 							ex := w.NewExec()
+							ex.autoInv = true // no-panic of a loop body: one arbitrary iteration from an arbitrary loop state
 							st := newState()
 							ex.installIRIEqualsHook()
 							fn := w.Prog.MethodValue(sel)
@@ -312,6 +313,9 @@ func checkC20Methods(w *World, c *Check, kinds []nilKind) {
 							for i, p := range ex.panics {
 								c.Add(&Obligation{Name: fmt.Sprintf("%s/nopanic/%s@%s#%d", grp, p.Kind, p.Fn, i), Group: grp, Common: ex.assumes,
 									Goal: Not(p.C), Pos: p.Pos, Funcs: []string{mname}, Bounded: bound})
+							}
+							for _, so := range ex.sideObls {
+								c.Add(&Obligation{Name: fmt.Sprintf("%s/loop/%s", grp, so.Name), Group: grp, Common: ex.assumes, Hyps: []*Term{so.Hyp}, Goal: so.Goal, Pos: so.Pos, Funcs: []string{mname}, Bounded: bound})
 							}
 							if len(ex.panics) == 0 {
 								c.Add(&Obligation{Name: grp + "/nopanic", Group: grp, Common: ex.assumes, Goal: TTrue, Pos: ex.pos(fn.Pos()), Bounded: bound, Funcs: []string{mname}})
@@ -481,7 +485,7 @@ func checkC20Containers(w *World, c *Check, kinds []nilKind) {
 				// nil-safety is a row of the function matrix above / property C14)
 				ex.installIRIEqualsHook()
 				ex.hooks["ItemsEqual"] = func(ex *Exec, st *State, f *ssa.Function, a []Value) (Value, bool) {
-					return App("itemsEq", SBool, ex.abstractItem(a[0].(*IfaceVal)), ex.abstractItem(a[1].(*IfaceVal))), true
+					return App("itemsEq", SBool, ex.abstractItem(asItemVal(a[0])), ex.abstractItem(asItemVal(a[1]))), true
 				}
 				fn := w.Method(tg.recv, tg.method)
 				rt := w.Type(tg.recv)
@@ -510,6 +514,9 @@ func checkC20Containers(w *World, c *Check, kinds []nilKind) {
 					c.Add(&Obligation{Name: fmt.Sprintf("%s/nopanic/%s@%s#%d", grp, p.Kind, p.Fn, i), Group: grp, Common: ex.assumes,
 						Goal: Not(p.C), Pos: p.Pos, Funcs: []string{"(" + tg.recv + ")." + tg.method}, Bounded: bound,
 						Replay: c20ContainerReplay(tg.recv, tg.method, k)})
+				}
+				for _, so := range ex.sideObls {
+					c.Add(&Obligation{Name: fmt.Sprintf("%s/loop/%s", grp, so.Name), Group: grp, Common: ex.assumes, Hyps: []*Term{so.Hyp}, Goal: so.Goal, Pos: so.Pos, Funcs: []string{"(" + tg.recv + ")." + tg.method}, Bounded: bound})
 				}
 				if len(ex.panics) == 0 {
 					c.Add(&Obligation{Name: grp + "/nopanic", Group: grp, Common: ex.assumes, Goal: TTrue, Pos: ex.pos(fn.Pos()), Bounded: bound})
